@@ -60,7 +60,9 @@ PROPS["C04"] = {
     "level_text": "Generated-history search against an exact reference model of the lifecycle; schedules of the inbox hand-off are explored by the vsched leg. Sampling, not proof.",
     "level_note": "trusts internal/life/sim.go as the reading of the property; single-driver histories (concurrency of senders is covered by the vsched leg and C01/C07 legs)",
     "assumptions": LIFE_ASSUME,
-    "legs": [rapid("life", "c04", "TestLifecycle", 4000, 60000, shards=(2, 12))],
+    "legs": [rapid("life", "c04", "TestLifecycle", 4000, 60000, shards=(2, 12)),
+             rapid("sched", "sched", "TestLifecycleSchedules", 3000, 60000, shards=(2, 12), flavour="sched"),
+             plain("sdfs", "sched", "TestLifecycleDFS", flavour="sched", shards={"quick": 1, "thorough": 6}, timeout={"quick": 600, "thorough": 3000})],
 }
 
 PROPS["C05"] = {
@@ -112,7 +114,9 @@ PROPS["C07"] = {
     "assumptions": LIFE_ASSUME + ["concurrent leg: the interleaving of the callers with the clean-up is sampled by the Go runtime (generated spin counts only bias it)"],
     "legs": [plain("known", "c07", "TestKnownF7"),
              rapid("life", "c07", "TestStopPoison", 3000, 50000, shards=(2, 12)),
-             rapid("conc", "c07", "TestConcurrentStops", 1500, 20000, shards=(2, 8))],
+             rapid("conc", "c07", "TestConcurrentStops", 1500, 20000, shards=(2, 8)),
+             rapid("sched", "sched", "TestStopSchedules", 3000, 60000, shards=(2, 12), flavour="sched"),
+             plain("sdfs", "sched", "TestStopDFS", flavour="sched", shards={"quick": 1, "thorough": 6}, timeout={"quick": 600, "thorough": 3000})],
 }
 
 PROPS["C13"] = {
@@ -331,7 +335,8 @@ PROPS["C03"] = {
     "level_note": "sequentially consistent interleavings of the rewritten code only; trusts the rewriter and vsched",
     "assumptions": SCHED_ASSUME,
     "legs": [rapid("rand", "sched", "TestWakeupRandom", 20000, 300000, shards=(2, 12), flavour="sched"),
-             plain("dfs", "sched", "TestWakeupDFS", flavour="sched")],
+             plain("dfs", "sched", "TestWakeupDFS", flavour="sched"),
+             rapid("engine", "sched", "TestQuiescenceSchedules", 3000, 60000, shards=(2, 12), flavour="sched")],
 }
 
 PROPS["C17"] = {
